@@ -1,0 +1,53 @@
+//go:build verif
+
+package reporter
+
+// Verification accessors (build tag "verif"): they expose the unexported
+// fields of comment values so that an external, stateful Commenter can be
+// driven through Submit, and build the GitHub destination value that
+// GithubReporter.IsEqual needs. Nothing here changes behaviour.
+
+import (
+	"github.com/google/go-github/v71/github"
+
+	"github.com/cloudflare/pint/internal/checks"
+)
+
+func VerifPendingFields(p PendingComment) (path, text string, line int, anchor checks.Anchor) {
+	return p.path, p.text, p.line, p.anchor
+}
+
+func VerifNewPending(path, text string, line int, anchor checks.Anchor) PendingComment {
+	return PendingComment{path: path, text: text, line: line, anchor: anchor}
+}
+
+func VerifExistingFields(e ExistingComment) (meta any, path, text string, line int) {
+	return e.meta, e.path, e.text, e.line
+}
+
+func VerifNewExisting(meta any, path, text string, line int) ExistingComment {
+	return ExistingComment{meta: meta, path: path, text: text, line: line}
+}
+
+// VerifGithubDestination builds the destination value of the GitHub reporter from (filename, patch) pairs.
+func VerifGithubDestination(files map[string]string) any {
+	pr := ghPR{}
+	for name, patch := range files {
+		pr.files = append(pr.files, &github.CommitFile{Filename: github.Ptr(name), Patch: github.Ptr(patch)})
+	}
+	return pr
+}
+
+// VerifMakeComments exposes the pending comment construction.
+func VerifMakeComments(s Summary, showDuplicates bool) []PendingComment {
+	return makeComments(s, showDuplicates)
+}
+
+// VerifGithubReporter / VerifGitLabReporter build reporter values without any network access, for their predicates.
+func VerifGithubReporter(maxComments int) GithubReporter {
+	return GithubReporter{maxComments: maxComments}
+}
+
+func VerifGitLabReporter(maxComments int) GitLabReporter {
+	return GitLabReporter{maxComments: maxComments}
+}
